@@ -133,7 +133,7 @@ def run_dec(job, res, tier):
         olen, otxt = od
         opsize16 = 0x66 in w[:len(prefixes) + 1]
         try:
-            co = OD.canon(otxt, 'objdump', addr=slot * OD.SLOT, length=olen, opsize16=opsize16)
+            co = OD.canon(otxt, 'objdump', addr=slot * OD.SLOT, length=olen, opsize16=opsize16, dup_size=len(set(prefixes)) != len(prefixes))
         except OD.Unparsed as ex:
             res['wit_skipped'] = res.get('wit_skipped', 0) + 1
             continue
@@ -180,13 +180,14 @@ def jobs(tier, seed):
         # one row per signature; the full SIB representative set only for rows whose name is in SIB_ROWS (addressing forms are decoded
         # by shared code), the thin ModRM slice elsewhere
         out = []
-        for ej in E.make_jobs(tier, seed, prefix_sets=[(), (0x66,), (0x67,), (0x2E,)], sib='min', per_signature=True):
+        for ej in E.make_jobs(tier, seed, prefix_sets=[(), (0x66,), (0x67,), (0x2E,), (0x66, 0x66), (0x67, 0x67)], sib='min', per_signature=True):
             if ej[4] in SIB_ROWS and ej[0] in ((), (0x67,)):
                 ej = (ej[0], ej[1], ej[2], 'reps', ej[4])
             out.append(('dec', ej, tier))
         return out
     ps = [(), (0x66,), (0x67,), (0x66, 0x67), (0x2E,), (0x36,), (0x26,), (0x64,), (0x65,), (0xF2,), (0xF3,), (0xF0,)]
-    return [('dec', ej, tier) for ej in E.make_jobs(tier, seed, prefix_sets=ps, sib='reps', per_signature=False)]
+    return [('dec', ej, tier) for ej in E.make_jobs(tier, seed, prefix_sets=ps, sib='reps', per_signature=False)] + \
+        [('dec', ej, tier) for ej in E.make_jobs(tier, seed, prefix_sets=[(0x66, 0x66), (0x67, 0x67), (0x66, 0x67, 0x66)], sib='min', per_signature=False)]
 
 
 SIB_ROWS = ('mov', 'lea', 'add', 'movzx', 'imul', 'fld', 'movq', 'push', 'cmpxchg', 'test', 'shl', 'inc')
@@ -233,7 +234,8 @@ elif od is None: bad = False
 else:
     olen, otxt = od
     try:
-        co = OD.canon(otxt, 'objdump', addr=0, length=olen, opsize16=(0x66 in data[:3]))
+        pf = [b for b in data[:4] if b in (0x66, 0x67)]
+        co = OD.canon(otxt, 'objdump', addr=0, length=olen, opsize16=(0x66 in data[:3]), dup_size=len(pf) != len(set(pf)))
         if olen != i.l: bad = True; print('length', i.l, 'vs', olen)
         else:
             why = OD.same(OD.canon(str(i), 'miasm', length=i.l), co, addr16=(0x67 in data[:3]))
